@@ -10,7 +10,7 @@ RULE = (
     "(midpoint, equal-step) edges with analytic Jacobians, permuted vertex list, arbitrary ids, 0..3 extra fixed vertices, fix_first_pose in "
     "{T,F}; every component holds a fixed pose. Oracle: optimize(tol=0,max_iter=1), recover the applied increment per vertex with the reference "
     "model and compare with the dense reference normal equations (AD Jacobians, explicit loops, numpy.linalg.solve). "
-    "Non-trivial = parallel edge, reversed edge, mixed dimensions, >=2 fixed vertices or an n-ary custom edge; distinct = hash of the case. Also: edge objects re-used from an earlier graph that has moved since (multi-start); a common information scale 1e-12..1e9; the same edge object listed twice; integer / numpy fixed flags; with probability 0.4% a consistent linear graph of 4096..16385 edges (up to ~49000 unknowns) on which one step must land on the ground truth."
+    "Non-trivial = parallel edge, reversed edge, mixed dimensions, >=2 fixed vertices or an n-ary custom edge; distinct = hash of the case. Also: edge objects re-used from an earlier graph that has moved since (multi-start); a common information scale 1e-12..1e9; the same edge object listed twice; integer / numpy fixed flags; with probability 0.4% a consistent linear graph of 4096..16385 edges (up to ~49000 unknowns) on which one step must land on the ground truth. In half of the multi-iteration cases the fixed set is edited on the live Graph between iteration 1 and 2 (one free vertex marked fixed / one fixed vertex released): each iteration must be the step of the reduced problem as flagged at that moment."
 )
 BUDGET = {"quick": 16 * 1500, "thorough": 16 * 8000}
 TOLERANCES = {
@@ -62,6 +62,11 @@ def strategy_(g):
         return _dead_reckoned(g)
     case = GG.gen(g, n_pose=(2, 8), n_lm=(0, 3), n_loops=(0, 3), conds=(1.0, 1e2, 1e3), noise=(0.05, 0.05), pert=(0.3, 0.3))
     case["n_steps"] = g.choice([1, 1, 2, 3])
+    # the fixed set edited on the live graph between two iterations (round 9, C03-l): a free vertex becomes fixed / a fixed one free
+    case["refix"] = g.choice([None, None, None, "fix", "fix", "unfix"])
+    case["refix_pick"] = g.rnd.random()
+    if case["refix"]:
+        case["n_steps"] = max(2, case["n_steps"])
     # multi-start: the same edge objects were already used in an earlier Graph with OTHER Vertex objects (same ids) that moved since
     case["restart"] = g.choice([False, False, False, True])
     case["alias"] = []
@@ -122,8 +127,23 @@ def check(case, ctx):
         ctx.event("free-vertices-share-one-pose-object")
     # consecutive iterations on the same live graph: each one must be the Gauss-Newton step of the state it starts from
     # (anything remembered from an earlier evaluation - cached blocks, buffers - shows up from the second one on)
+    ff = case["fix_first"]
+    fixed = GC.expected_fixed(case, ff)
     for it in range(case.get("n_steps", 1)):
-        if GC.gn_step_oracle(ctx, case, g, case["fix_first"], S_):
+        if it == 1 and case.get("refix"):
+            # between two iterations on the same Graph object the user marks another vertex fixed (or releases one): the next
+            # iteration must be the Gauss-Newton step of the NEW reduced problem (nothing kept from the earlier linearisation)
+            want = case["refix"] == "fix"
+            elig = [i for i, f in enumerate(fixed) if bool(f) != want and not (ff and i == 0)]
+            if want and len(elig) < 2:
+                elig = []
+            if elig:
+                j = elig[min(len(elig) - 1, int(case.get("refix_pick", 0.0) * len(elig)))]
+                g._vertices[j].fixed = want
+                fixed = list(fixed)
+                fixed[j] = want
+                ctx.event("fixed-set-edited-between-iterations:%s" % case["refix"])
+        if GC.gn_step_oracle(ctx, case, g, ff, S_, fixed=fixed):
             return
         if not GC.all_finite(g):
             return
